@@ -6,6 +6,18 @@ index created by the library and index supplied faidx-style (written by this fil
 Contracts checked at run time on the real functions:
   create_index rows == faidx rows;  get_contig_lengths == true lengths;  f[name] == sequence;
   get_interval_sequences(intervals)[i] == seq[a:b]  (string-encoded 'fast' path and plain path).
+
+Extensions (each with its own signatures):
+  * supplied index as other tools / scripts write it: last row WITHOUT a trailing newline (same files as above);
+  * the index WRITTEN next to the FASTA when it is missing, on every route that writes it (open_indexed,
+    Genome.from_file with default filter / sort_names / custom filters, Genome.from_dict(...).read_sequence(fasta)):
+    the written .fai is parsed by a spec-level parser and must list ALL records (names with '_' at any position,
+    names with descriptions), and a FRESH open_indexed afterwards must serve lengths, whole contigs and every
+    interval of every record; the Genome object's own view (chrom sizes, read_sequence() whole contigs and
+    intervals of the contigs its filter keeps) is compared with the file as well;
+  * operation histories on ONE IndexedFasta: whole-contig results are KEPT while further contigs are fetched
+    (every fetch order of the records + a re-fetch, dict(items()), list(values()), interleaved interval reads)
+    and compared with the file at the end, over files mixing single-line and wrapped records.
 """
 import itertools
 import os
@@ -35,11 +47,91 @@ def seq_of(n, salt):
     return "".join(ALPH[(i * 7 + salt * 3 + (i * i) % 5) % 4] for i in range(n))
 
 
-def check_case(col, tmp, records, width, supplied_index, final_newline=True):
+def write_fai(fai, rows, final_newline=True):
+    """faidx-style index written from the spec: 5 tab-separated columns per record, rows separated by a newline;
+    the terminator of the LAST row is optional (hand-made / script-written indexes)"""
+    text = "\n".join("\t".join(str(x) for x in r) for r in rows) + ("\n" if final_newline else "")
+    with open(fai, "w") as f:
+        f.write(text)
+
+
+def parse_fai(text):
+    """spec-level reader of a faidx file: rows are newline separated (final terminator optional), 5 tab-separated
+    columns NAME LENGTH OFFSET LINEBASES LINEWIDTH; returns list of rows or None when the text is not of that shape.
+    The record name is the first whitespace-delimited token (same normalisation as for create_index above)."""
+    lines = text.split("\n")
+    if lines and lines[-1] == "":
+        lines = lines[:-1]
+    rows = []
+    for line in lines:
+        cols = line.split("\t")
+        if len(cols) != 5 or not cols[0].split():
+            return None
+        try:
+            rows.append((cols[0].split()[0],) + tuple(int(c) for c in cols[1:]))
+        except ValueError:
+            return None
+    return rows
+
+
+def _access_checks(col, f, records, tag, case, final_newline=True):
+    """lengths, whole contigs and every interval (4 ways of encoding the chromosome column) of an open IndexedFasta
+    against the records the file was generated from.  tag 'built' / 'supplied' are the original scope (signatures
+    unchanged); any other tag names an extension and is part of every signature."""
     import numpy as np
     import bionumpy as bnp
-    from bionumpy.io.indexed_fasta import IndexedFasta, create_index
     from bionumpy.datatypes import Interval
+    own = "" if tag in ("built", "supplied") else ":" + tag
+    true_len = {h.split()[0]: len(s) for h, s in records}
+    col.case({"k": "lengths", **case}, contract="get_contig_lengths")
+    got = col.guarded(lambda: {k: int(v) for k, v in f.get_contig_lengths().items()}, "get_contig_lengths" + own, case) \
+        if own else {k: int(v) for k, v in f.get_contig_lengths().items()}
+    if got is not None:
+        col.check(got == true_len, "get_contig_lengths:not-sequence-length" + own, case, "got %r expected %r" % (got, true_len))
+    for h, s in records:
+        name = h.split()[0]
+        col.case({"k": "whole", "name": name, **case}, contract="IndexedFasta.__getitem__")
+        g = col.guarded(lambda: f[name].to_string(), "getitem:" + tag, case)
+        if g is not None:
+            col.check(g == s, "getitem:wrong-sequence:" + tag, case, "got %r expected %r" % (g, s))
+    # all intervals
+    ivs = [(h.split()[0], a, b) for h, s in records for a in range(len(s)) for b in range(a + 1, len(s) + 1)]
+    expect = [dict((hh.split()[0], ss) for hh, ss in records)[n][a:b] for n, a, b in ivs]
+    for path in ("plain", "stringenc", "stringenc-reordered-labels", "stringenc-label-subset"):
+        use_ivs, use_expect = ivs, expect
+        if path == "plain":
+            intervals = Interval.from_entry_tuples(ivs)
+        else:
+            # chromosome column encoded with a StringEncoding whose label list is in file order / in another order /
+            # a subset of the contigs (what Genome.from_file produces with sort_names or with ignored contigs)
+            names = [h.split()[0] for h, _ in records]
+            if path == "stringenc-reordered-labels":
+                names = names[::-1]
+                if len(names) < 2:
+                    continue
+            if path == "stringenc-label-subset":
+                if len(names) < 2:
+                    continue
+                names = names[1:]
+                keep = [k for k, (n, _, _) in enumerate(ivs) if n in names]
+                use_ivs, use_expect = [ivs[k] for k in keep], [expect[k] for k in keep]
+                if not use_ivs:
+                    continue
+            enc = bnp.encodings.string_encodings.StringEncoding(names)
+            intervals = Interval(bnp.encoded_array.EncodedArray(np.array([names.index(n) for n, _, _ in use_ivs]), enc),
+                                 np.array([a for _, a, _ in use_ivs]), np.array([b for _, _, b in use_ivs]))
+        col.case({"k": "intervals", "path": path, "n": len(use_ivs), **case}, contract="get_interval_sequences")
+        at_end = (not final_newline)
+        g = col.guarded(lambda: to_py(f.get_interval_sequences(intervals)),
+                        "get_interval_sequences:%s:%s%s" % (path, tag, ":no-final-newline" if at_end else ""), case)
+        if g is not None:
+            bad = [(iv, x, e) for iv, x, e in zip(use_ivs, g, use_expect) if x != e]
+            col.check(not bad, "get_interval_sequences:wrong-substring:%s:%s" % (path, tag), case, "first mismatches %r" % (bad[:3],))
+
+
+def check_case(col, tmp, records, width, supplied_index, final_newline=True):
+    import bionumpy as bnp
+    from bionumpy.io.indexed_fasta import create_index
     data, rows = make_fasta(records, width, final_newline)
     case = {"records": records, "width": width, "supplied_index": supplied_index, "final_newline": final_newline}
     fa = os.path.join(tmp, "t%d.fa" % col.evaluations)
@@ -67,49 +159,217 @@ def check_case(col, tmp, records, width, supplied_index, final_newline=True):
     if f is None:
         return
     try:
-        true_len = {h.split()[0]: len(s) for h, s in records}
-        col.case({"k": "lengths", **case}, contract="get_contig_lengths")
-        got = {k: int(v) for k, v in f.get_contig_lengths().items()}
-        col.check(got == true_len, "get_contig_lengths:not-sequence-length", case, "got %r expected %r" % (got, true_len))
-        for h, s in records:
-            name = h.split()[0]
-            col.case({"k": "whole", "name": name, **case}, contract="IndexedFasta.__getitem__")
-            g = col.guarded(lambda: f[name].to_string(), "getitem:" + tag, case)
+        _access_checks(col, f, records, tag, case, final_newline)
+    finally:
+        f._f_obj.close()
+
+
+# ----------------------------------------------------------------------------------------------------------------------
+# extension 1: index supplied by another tool / a script - the terminator of the last row is optional
+# ----------------------------------------------------------------------------------------------------------------------
+
+def check_supplied_variant(col, tmp, records, width, variant="no-final-newline"):
+    """same FASTA, same faidx rows, but the .fai text ends without a newline: it must be parsed to the same index"""
+    import bionumpy as bnp
+    data, rows = make_fasta(records, width)
+    case = {"scenario": "supplied-fai-variant", "variant": variant, "records": records, "width": width}
+    fa = os.path.join(tmp, "v%d.fa" % col.evaluations)
+    open(fa, "wb").write(data)
+    write_fai(fa + ".fai", rows, final_newline=(variant != "no-final-newline"))
+    tag = "supplied-fai-" + variant
+    f = col.guarded(lambda: bnp.open_indexed(fa), "open_indexed:" + tag, case)
+    if f is None:
+        return
+    try:
+        _access_checks(col, f, records, tag, case)
+    finally:
+        f._f_obj.close()
+
+
+# ----------------------------------------------------------------------------------------------------------------------
+# extension 2: the index written next to the FASTA when it is missing, on every route that writes it
+# ----------------------------------------------------------------------------------------------------------------------
+
+ROUTES = ("open_indexed", "Genome.from_file", "Genome.from_file:sort_names", "Genome.from_file:keep-all",
+          "Genome.from_file:keep-first-only", "Genome.from_dict.read_sequence")
+
+
+def check_written_index(col, tmp, records, width, route):
+    """no .fai present -> `route` writes it.  The written file (read back with parse_fai) must have one faidx row per
+    record of the FASTA - whatever contigs the Genome object itself keeps - and a fresh open_indexed must serve all of
+    them.  The Genome's own view is checked for the contigs its filter keeps (default filter: names without '_')."""
+    import bionumpy as bnp
+    from bionumpy.datatypes import Interval
+    data, rows = make_fasta(records, width)
+    case = {"scenario": "written-index", "route": route, "records": records, "width": width}
+    fa = os.path.join(tmp, "w%d.fa" % col.evaluations)
+    open(fa, "wb").write(data)
+    fai = fa + ".fai"
+    if os.path.exists(fai):
+        os.unlink(fai)
+    names = [h.split()[0] for h, _ in records]
+    truth = {h.split()[0]: s for h, s in records}
+    sigroute = route.split(":")[0]
+    described = any(len(h.split()) > 1 for h, _ in records)
+    genome, gseq, kept = None, None, names
+    col.case({"k": "write-route", **case}, contract="index written when missing")
+    if route == "open_indexed":
+        f0 = col.guarded(lambda: bnp.open_indexed(fa), "written-index:open_indexed", case)
+        if f0 is not None:
+            f0._f_obj.close()
+    elif route == "Genome.from_dict.read_sequence":
+        genome = col.guarded(lambda: bnp.Genome.from_dict({n: len(truth[n]) for n in names}), "written-index:Genome.from_dict", case)
+        if genome is not None:
+            gseq = col.guarded(lambda: genome.read_sequence(fa), "written-index:Genome.from_dict.read_sequence", case)
+    else:
+        kwargs = {}
+        if route == "Genome.from_file:sort_names":
+            kwargs = {"sort_names": True}
+        if route == "Genome.from_file:keep-all":
+            kwargs = {"filter_function": lambda n: True}
+        if route == "Genome.from_file:keep-first-only":
+            kwargs = {"filter_function": lambda n, first=names[0]: n == first}
+            kept = names[:1]
+        if route in ("Genome.from_file", "Genome.from_file:sort_names"):
+            kept = [n for n in names if "_" not in n]          # documented default: ignore names with underscores
+        # one signature for the whole region "FASTA headers carry a description" (see report), so that the rest of
+        # the Genome routes stays meaningful
+        genome = col.guarded(lambda: bnp.Genome.from_file(fa, **kwargs),
+                             "Genome.from_file:fasta-header-with-description" if described else "written-index:Genome.from_file", case)
+        if genome is not None:
+            gseq = col.guarded(lambda: genome.read_sequence(), "Genome.read_sequence", case)
+    try:
+        # (a) the file that now sits next to the FASTA
+        col.case({"k": "written-fai", **case}, contract="written .fai == faidx rows of every record")
+        if not col.check(os.path.isfile(fai), "written-index:%s:no-fai-written" % sigroute, case, "no %s" % os.path.basename(fai)):
+            return
+        text = open(fai).read()
+        got_rows = parse_fai(text)
+        if col.check(got_rows is not None, "written-index:%s:fai-not-5-tab-separated-columns" % sigroute, case, "text %r" % text[:300]):
+            col.check([r[0] for r in got_rows] == names, "written-index:%s:records-missing-or-reordered" % sigroute, case,
+                      "names in the written .fai %r, records of the FASTA %r" % ([r[0] for r in got_rows], names))
+            col.check(got_rows == rows or [r[0] for r in got_rows] != names, "written-index:%s:rows-differ-from-faidx" % sigroute, case,
+                      "got %r expected %r" % (got_rows, rows))
+        # (b) the Genome object's own view of the contigs it keeps
+        if genome is not None:
+            col.case({"k": "genome-sizes", **case}, contract="Genome chrom sizes == sequence lengths")
+            sizes = col.guarded(lambda: {str(k): int(v) for k, v in genome.get_genome_context().chrom_sizes.items()},
+                                "Genome.chrom_sizes", case)
+            if sizes is not None:
+                col.check(sizes == {n: len(truth[n]) for n in kept}, "Genome.from_file:chrom-sizes-not-sequence-lengths", case,
+                          "got %r expected %r" % (sizes, {n: len(truth[n]) for n in kept}))
+        if gseq is not None and kept:
+            for n in kept:
+                col.case({"k": "genome-whole", "name": n, **case}, contract="Genome.read_sequence whole contig")
+                g = col.guarded(lambda: gseq.extract_chromsome(n).to_string().upper(), "Genome.read_sequence:extract_chromsome", case)
+                if g is not None:
+                    col.check(g == truth[n], "Genome.read_sequence:extract_chromsome:wrong-sequence", case, "%s: got %r expected %r" % (n, g, truth[n]))
+            ivs = [(n, a, b) for n in kept for a in range(len(truth[n])) for b in range(a + 1, len(truth[n]) + 1)]
+            col.case({"k": "genome-intervals", "n": len(ivs), **case}, contract="Genome.read_sequence intervals")
+            g = col.guarded(lambda: [s.upper() for s in to_py(gseq[genome.get_intervals(Interval.from_entry_tuples(ivs))])],
+                            "Genome.read_sequence:intervals", case)
             if g is not None:
-                col.check(g == s, "getitem:wrong-sequence:" + tag, case, "got %r expected %r" % (g, s))
-        # all intervals
-        ivs = [(h.split()[0], a, b) for h, s in records for a in range(len(s)) for b in range(a + 1, len(s) + 1)]
-        expect = [dict((hh.split()[0], ss) for hh, ss in records)[n][a:b] for n, a, b in ivs]
-        for path in ("plain", "stringenc", "stringenc-reordered-labels", "stringenc-label-subset"):
-            use_ivs, use_expect = ivs, expect
-            if path == "plain":
-                intervals = Interval.from_entry_tuples(ivs)
-            else:
-                # chromosome column encoded with a StringEncoding whose label list is in file order / in another order /
-                # a subset of the contigs (what Genome.from_file produces with sort_names or with ignored contigs)
-                names = [h.split()[0] for h, _ in records]
-                if path == "stringenc-reordered-labels":
-                    names = names[::-1]
-                    if len(names) < 2:
-                        continue
-                if path == "stringenc-label-subset":
-                    if len(names) < 2:
-                        continue
-                    names = names[1:]
-                    keep = [k for k, (n, _, _) in enumerate(ivs) if n in names]
-                    use_ivs, use_expect = [ivs[k] for k in keep], [expect[k] for k in keep]
-                    if not use_ivs:
-                        continue
-                enc = bnp.encodings.string_encodings.StringEncoding(names)
-                intervals = Interval(bnp.encoded_array.EncodedArray(np.array([names.index(n) for n, _, _ in use_ivs]), enc),
-                                     np.array([a for _, a, _ in use_ivs]), np.array([b for _, _, b in use_ivs]))
-            col.case({"k": "intervals", "path": path, "n": len(use_ivs), **case}, contract="get_interval_sequences")
-            at_end = (not final_newline)
-            g = col.guarded(lambda: to_py(f.get_interval_sequences(intervals)),
-                            "get_interval_sequences:%s:%s%s" % (path, tag, ":no-final-newline" if at_end else ""), case)
-            if g is not None:
-                bad = [(iv, x, e) for iv, x, e in zip(use_ivs, g, use_expect) if x != e]
-                col.check(not bad, "get_interval_sequences:wrong-substring:%s:%s" % (path, tag), case, "first mismatches %r" % (bad[:3],))
+                bad = [(iv, x) for iv, x in zip(ivs, g) if x != truth[iv[0]][iv[1]:iv[2]]]
+                col.check(not bad and len(g) == len(ivs), "Genome.read_sequence:intervals:wrong-substring", case,
+                          "%d results for %d intervals, first mismatches %r" % (len(g), len(ivs), bad[:3]))
+    finally:
+        if gseq is not None:
+            try:
+                gseq._fasta._f_obj.close()
+            except Exception:
+                pass
+    # (c) later random access to the same file finds the index left behind by the route
+    tag = "index-written-by-" + sigroute
+    f = col.guarded(lambda: bnp.open_indexed(fa), "open_indexed:" + tag, case)
+    if f is None:
+        return
+    try:
+        _access_checks(col, f, records, tag, case)
+    finally:
+        f._f_obj.close()
+
+
+# ----------------------------------------------------------------------------------------------------------------------
+# extension 3: operation histories on one IndexedFasta - results handed out earlier stay what they were
+# ----------------------------------------------------------------------------------------------------------------------
+
+def fetch_orders(names):
+    """every order of fetching all records once, each followed by a re-fetch of the first one (so that a 2-record
+    file has 3 fetches), + the same contig twice in a row"""
+    out = [list(p) + [p[0]] for p in itertools.permutations(names)]
+    out += [[n, n] for n in names]
+    return out
+
+
+def check_history(col, tmp, records, width):
+    import bionumpy as bnp
+    from bionumpy.datatypes import Interval
+    data, rows = make_fasta(records, width)
+    case = {"scenario": "history", "records": records, "width": width}
+    fa = os.path.join(tmp, "h%d.fa" % col.evaluations)
+    open(fa, "wb").write(data)
+    write_fai(fa + ".fai", rows)
+    names = [h.split()[0] for h, _ in records]
+    truth = {h.split()[0]: s for h, s in records}
+    f = col.guarded(lambda: bnp.open_indexed(fa), "history:open_indexed", case)
+    if f is None:
+        return
+    try:
+        def keep_and_compare(fetch, what, descr):
+            """fetch() -> list of (name, EncodedArray); all results are held, read immediately and again after every
+            fetch of the history is done"""
+            held = col.guarded(fetch, "history:%s" % what, case)
+            if held is None:
+                return
+            wrong = [(n, v.to_string(), truth[n]) for n, v in held if v.to_string() != truth[n]]
+            col.check(not wrong, "history:%s:kept-results-differ-from-file" % what, case,
+                      "%s; (name, held value now, sequence in the file): %r" % (descr, wrong[:3]))
+
+        for order in fetch_orders(names):
+            col.case({"k": "history-getitem", "order": order, **case}, contract="whole-contig results independent of later reads")
+            held, immediate_bad = [], []
+
+            def fetch(order=order, held=held, immediate_bad=immediate_bad):
+                for n in order:
+                    v = f[n]
+                    if v.to_string() != truth[n]:
+                        immediate_bad.append(n)
+                    held.append((n, v))
+                return held
+            r = col.guarded(fetch, "history:getitem", case)
+            if r is None:
+                continue
+            if not col.check(not immediate_bad, "history:getitem:wrong-sequence-right-after-fetch", case, "order %r contigs %r" % (order, immediate_bad)):
+                continue
+            changed = [(n, v.to_string(), truth[n]) for n, v in held if v.to_string() != truth[n]]
+            col.check(not changed, "history:getitem:earlier-result-changed-by-later-fetch", case,
+                      "fetch order %r; (name, held value now, sequence in the file): %r" % (order, changed[:3]))
+        # the dict-like views: all values are alive at the same time
+        col.case({"k": "history-items", **case}, contract="dict(items()) == records")
+        keep_and_compare(lambda: list(dict(f.items()).items()), "items", "dict(fasta.items())")
+        got_keys = col.guarded(lambda: sorted(dict(f.items()).keys()), "history:items", case)
+        if got_keys is not None:
+            col.check(got_keys == sorted(names), "history:items:keys-are-not-the-records", case, "got %r expected %r" % (got_keys, sorted(names)))
+        col.case({"k": "history-values", **case}, contract="list(values()) == records in keys() order")
+        keep_and_compare(lambda: list(zip(list(f.keys()), list(f.values()))), "values", "zip(fasta.keys(), list(fasta.values()))")
+        # interval results held across later whole-contig and interval reads, whole contigs held across interval reads
+        ivs = [(n, a, b) for n in names for a in range(len(truth[n])) for b in range(a + 1, len(truth[n]) + 1)]
+        expect = [truth[n][a:b] for n, a, b in ivs]
+        col.case({"k": "history-interleaved", **case}, contract="results independent of later reads (intervals and whole contigs interleaved)")
+
+        def interleaved():
+            r1 = f.get_interval_sequences(Interval.from_entry_tuples(ivs))
+            w1 = [(n, f[n]) for n in names]
+            r2 = f.get_interval_sequences(Interval.from_entry_tuples(ivs[::-1]))
+            w2 = [(n, f[n]) for n in names[::-1]]
+            return r1, w1, r2, w2
+        r = col.guarded(interleaved, "history:interleaved", case)
+        if r is not None:
+            r1, w1, r2, w2 = r
+            col.check(to_py(r1) == expect and to_py(r2) == expect[::-1], "history:interleaved:interval-results-differ-from-file", case,
+                      "get_interval_sequences result held across later reads: %r / %r expected %r" % (to_py(r1)[:4], to_py(r2)[:4], expect[:4]))
+            wrong = [(n, v.to_string(), truth[n]) for n, v in w1 + w2 if v.to_string() != truth[n]]
+            col.check(not wrong, "history:interleaved:whole-contig-results-differ-from-file", case, "(name, held, file) %r" % (wrong[:3],))
     finally:
         f._f_obj.close()
 
@@ -128,25 +388,100 @@ def cases(tier):
         yield [("a", seq_of(W, 4)), ("b", seq_of(2 * W, 5))], W
 
 
+# record names for the written-index routes: '_' at the start / in the middle / at the end / several, UCSC style alt and
+# unplaced scaffolds between ordinary names; first and last record with and without '_'; at least one name without '_'
+# (a Genome that keeps no contig at all is not what this property is about)
+NAME_SETS = (
+    ("chr1", "chr1_KI270706v1_random", "chr2", "chrUn_GL000195v1"),
+    ("_s", "t_", "chrM"),
+    ("a_b", "c"),
+    ("x", "y_1_2"),
+    ("solo",),
+)
+DESCRIBED_SET = ("chr1 first record", "chr10", "c_alt descr x")
+
+
+def written_index_cases(tier):
+    widths = [1, 2, 3, 4, 9]
+    for W in widths:
+        pool = [1, W, W + 1, 2 * W, 2 * W + 1, 3]
+        for k, names in enumerate(NAME_SETS):
+            shifts = (0, 2) if tier == "quick" else range(len(pool))
+            if tier == "quick" and (k + W) % 2:       # quick: half of the (name set, width) pairs
+                shifts = (1,)
+            for sh in shifts:
+                yield [(n, seq_of(pool[(sh + i) % len(pool)], i + 1)) for i, n in enumerate(names)], W
+        yield [(n, seq_of(pool[(W + i) % len(pool)], i + 1)) for i, n in enumerate(DESCRIBED_SET)], W
+
+
+def history_cases(tier):
+    """files mixing single-line records (L <= W) and wrapped records (L > W) in every arrangement"""
+    widths = [1, 2, 3, 4, 9]
+    names = ("chrA", "pB", "chrC", "sD")
+    for W in widths:
+        pool = sorted({1, max(1, W - 1), W, W + 1, 2 * W, 2 * W + 1})
+        for Ls in itertools.product(pool, repeat=2):
+            yield [(names[i], seq_of(L, i + 1)) for i, L in enumerate(Ls)], W
+        triples = list(itertools.product(pool, repeat=3))
+        if tier == "quick":
+            triples = [t for t in triples if min(t) <= W < max(t)][::3]
+        for Ls in triples:
+            yield [(names[i], seq_of(L, i + 1)) for i, L in enumerate(Ls)], W
+        quads = [(W + 1, 1, W, 2 * W + 1), (W, 2 * W, 1, W), (2 * W + 1, W, W + 1, 1), (1, 1, W, 2 * W)]
+        if tier != "quick":
+            quads += [q[::-1] for q in quads]
+        for Ls in quads:
+            yield [(names[i], seq_of(L, i + 1)) for i, L in enumerate(Ls)], W
+
+
 def run(tier="quick", seed=0):
     col = Collector("C17", tier, seed,
                     "exhaustive: FASTA of 1..3 records x L=1..%d x W in {1,2,3,4,9} x {index built by the library, faidx-style index supplied} "
                     "x every interval [a,b); distinct = distinct (file, operation); non-trivial = every case (all exercise offset arithmetic)"
-                    % (6 if tier == "quick" else 7))
-    col.bounds = {"records": "1..3", "L": "1..%d" % (6 if tier == "quick" else 7), "W": [1, 2, 3, 4, 9]}
+                    "; + the same files with a supplied .fai whose last row is unterminated; + index written when missing on %d routes "
+                    "(open_indexed / Genome.from_file variants / Genome.read_sequence) x names with '_' and descriptions, then a fresh "
+                    "open_indexed; + histories on one IndexedFasta (every fetch order + re-fetch, items(), values(), interleaved interval "
+                    "reads; results kept and compared at the end) over files of 2..4 records mixing single-line and wrapped records"
+                    % (6 if tier == "quick" else 7, len(ROUTES)))
+    col.bounds = {"records": "1..3", "L": "1..%d" % (6 if tier == "quick" else 7), "W": [1, 2, 3, 4, 9],
+                  "supplied_fai_variants": ["final newline", "no final newline"], "index_writing_routes": list(ROUTES),
+                  "written_index_records": "1..4, names with '_' / descriptions", "history_records": "2..4, L in {1,W-1,W,W+1,2W,2W+1}",
+                  "history_fetch_orders": "all permutations + re-fetch of the first, same contig twice"}
     with TmpDir() as tmp:
         for records, W in cases(tier):
             for supplied in (False, True):
                 check_case(col, tmp, records, W, supplied)
                 if col.out_of_time():
                     break
+        for records, W in cases(tier):
+            check_supplied_variant(col, tmp, records, W, "no-final-newline")
+            if col.out_of_time():
+                break
+        for records, W in written_index_cases(tier):
+            for route in ROUTES:
+                check_written_index(col, tmp, records, W, route)
+            if col.out_of_time():
+                break
+        for records, W in history_cases(tier):
+            check_history(col, tmp, records, W)
+            if col.out_of_time():
+                break
     return col.result()
 
 
 def replay(case):
     col = Collector("C17", "quick", 0, "replay")
+    records = [tuple(r) for r in case["records"]]
     with TmpDir() as tmp:
-        check_case(col, tmp, [tuple(r) for r in case["records"]], case["width"], case["supplied_index"], case.get("final_newline", True))
+        scenario = case.get("scenario")
+        if scenario == "supplied-fai-variant":
+            check_supplied_variant(col, tmp, records, case["width"], case["variant"])
+        elif scenario == "written-index":
+            check_written_index(col, tmp, records, case["width"], case["route"])
+        elif scenario == "history":
+            check_history(col, tmp, records, case["width"])
+        else:
+            check_case(col, tmp, records, case["width"], case["supplied_index"], case.get("final_newline", True))
     if col.failures:
         return False, "; ".join(f["signature"] + ": " + f["message"] for f in col.failures)
     return True, "ok"
